@@ -228,6 +228,13 @@ class Interp:
             return vstr(d[0].v.lower())
         if cs.is_("core::str::<impl str>::to_uppercase", "alloc::str::<impl str>::to_uppercase") and d and d[0].k == "str":
             return vstr(d[0].v.upper())
+        if fn == "core::ops::try_trait::Try::branch" and d and d[0].k in ("adt", "variant"):
+            nm = d[0].extra[1] if d[0].k == "adt" else d[0].v
+            payload = d[0].v if d[0].k == "adt" else []
+            if nm in ("Ok", "Some"):
+                return Val("adt", list(payload) or [UNIT], ("core::ops::control_flow::ControlFlow", "Continue"))
+            if nm in ("Err", "None"):
+                return Val("adt", [Val("adt", list(payload), d[0].extra)] if d[0].k == "adt" else [d[0]], ("core::ops::control_flow::ControlFlow", "Break"))
         if cs.is_("core::option::Option::is_none") and d and d[0].k in ("variant", "adt"):
             nm = d[0].v if d[0].k == "variant" else d[0].extra[1]
             return vbool(nm == "None")
@@ -363,6 +370,33 @@ class Interp:
 
 def run(body, init, call_model=None, max_steps=4000):
     return Interp(body, call_model, max_steps).run(init)
+
+
+def some(v):
+    return Val("adt", [v], ("core::option::Option", "Some"))
+
+
+NONE = Val("variant", "None", "core::option::Option")
+
+
+def ok(v):
+    return Val("adt", [v], ("core::result::Result", "Ok"))
+
+
+def marker(name):
+    return Val("unknown", name)
+
+
+def struct_val(prog, adt_key, fields=None, default=None):
+    """a struct value whose named fields are given (others Unknown tagged with their name)"""
+    names = prog.adt_fields(adt_key)
+    vals = []
+    for n in names:
+        if fields and n in fields:
+            vals.append(fields[n])
+        else:
+            vals.append(default if default is not None else Val("unknown", "%s.%s" % (adt_key.rsplit("::", 1)[1], n)))
+    return Val("adt", vals, (adt_key, prog.adt(adt_key)["variants"][0]["name"]))
 
 
 def enum_table(prog, body, adt_key, param_local=1, by_ref=True, call_model=None):
